@@ -382,8 +382,13 @@ class ProgGen:
 
     def cond(self, lbl):
         ch, a = self.ch, self.a
-        k = ch.pick(4, lbl + ".ck")
-        if k == 0:
+        k = ch.pick(5, lbl + ".ck")
+        if k == 4:
+            # switch-like: the same few input words compared with small constants again and again
+            a.push(ch.pick(4, lbl + ".sw"))
+            self.input_word(lbl)
+            a.op("EQ")
+        elif k == 0:
             self.input_word(lbl)
             self.const(lbl + "c")
             a.op(ch.choose(["LT", "GT", "EQ", "SLT"], lbl + ".cop"))
